@@ -66,6 +66,13 @@ def _range_of(x):
     return None
 
 
+def _top_leaves(x):
+    """leaves of a conditional expression at the top of a task element: `(lo, hi) if arr is None else arr[lo:hi]` (total by construction)"""
+    if isinstance(x, ast.IfExp):
+        return _top_leaves(x.body) + _top_leaves(x.orelse)
+    return [x]
+
+
 def check_batch_tasks(ctx):
     R = "C16-P"
     ctx.rule(R, "batch_tasks: P1 cursor starts at start_idx; P2 end = cursor + n//k (+1 iff i < n%k) in `for i in range(k)`; "
@@ -134,27 +141,28 @@ def check_batch_tasks(ctx):
         if te is None:
             ctx.undecided(R, c, "P3 task shape", "cannot read the task layout from `%s`" % A.unparse(c))
             continue
-        X, Y, _ = te
-        rg = _range_of(X)
-        if rg is None:
-            ctx.violate(R, c, "P3 task range", "task element 0 `%s` is neither (lo, hi) nor arr[lo:hi]" % A.unparse(X), key="P3range:" + canon(X))
-            continue
-        kind, lo, hi, arrx = rg
+        X0, Y, _ = te
         gl = [(canon(flow.resolve(t, at=loop)), pol) for t, pol in A.guards_of(c, stop=loop)]
         guardsets.append((c, gl))
-        if kind == "slice":
-            ctx.check(R, c, "P3 sliced object is `arr`", canon(arrx) == "arr", "slices `%s`, not the `arr` argument" % canon(arrx), key="P3arr")
-        # lo must be the loop-carried cursor
-        names = [n for n in ast.walk(lo) if isinstance(n, ast.Name) and "@loop" in n.id]
-        if not (isinstance(lo, ast.Name) and "@loop" in lo.id):
-            ctx.violate(R, c, "P3 lower bound is the cursor", "lower bound `%s` is not the loop-carried cursor" % A.unparse(lo), key="P3lo")
-            continue
-        cur = lo.id.split("@")[0]
-        if cursor is None:
-            cursor = cur
-        ctx.check(R, c, "P3 task id is the cursor", equal(Y, lo), "task carries `%s` as its start index, range starts at `%s`" % (A.unparse(Y), A.unparse(lo)), key="P3id")
-        # hi = cursor + base + [i < rmdr]
-        _check_end(ctx, R, c, hi, lo, ivar, "P2 end = cursor + n//k + [i < n%k]", "P2")
+        for X in _top_leaves(X0):
+            rg = _range_of(X)
+            if rg is None:
+                ctx.violate(R, c, "P3 task range", "task element 0 `%s` is neither (lo, hi) nor arr[lo:hi]" % A.unparse(X), key="P3range:" + canon(X))
+                continue
+            kind, lo, hi, arrx = rg
+            if kind == "slice":
+                ctx.check(R, c, "P3 sliced object is `arr`", canon(arrx) == "arr", "slices `%s`, not the `arr` argument" % canon(arrx), key="P3arr")
+            # lo must be the loop-carried cursor
+            names = [n for n in ast.walk(lo) if isinstance(n, ast.Name) and "@loop" in n.id]
+            if not (isinstance(lo, ast.Name) and "@loop" in lo.id):
+                ctx.violate(R, c, "P3 lower bound is the cursor", "lower bound `%s` is not the loop-carried cursor" % A.unparse(lo), key="P3lo")
+                continue
+            cur = lo.id.split("@")[0]
+            if cursor is None:
+                cursor = cur
+            ctx.check(R, c, "P3 task id is the cursor", equal(Y, lo), "task carries `%s` as its start index, range starts at `%s`" % (A.unparse(Y), A.unparse(lo)), key="P3id")
+            # hi = cursor + base + [i < rmdr]
+            _check_end(ctx, R, c, hi, lo, ivar, "P2 end = cursor + n//k + [i < n%k]", "P2")
     # appends cover every path exactly once
     if len(guardsets) == 1:
         ctx.check(R, guardsets[0][0], "P3 append unconditional", not guardsets[0][1], "the only append is conditional on %s" % (guardsets[0][1],), key="P3cover")
@@ -192,16 +200,17 @@ def check_batch_tasks(ctx):
         if te is None:
             ctx.undecided(R, c, "P6 task shape", "cannot read `%s`" % A.unparse(c))
             continue
-        X, Y, _ = te
-        rg = _range_of(X)
-        if rg is None:
-            ctx.violate(R, c, "P6 range", "fall-back element 0 `%s` is not a range" % A.unparse(X), key="P6range")
-            continue
-        kind, lo, hi, arrx = rg
-        ok = equal(lo, parse("start_idx")) and equal(hi, parse("start_idx + n_tasks")) and equal(Y, parse("start_idx"))
-        ctx.check(R, c, "P6 fall-back = [start, start+n)", ok,
-                  "fall-back task covers [%s, %s) with id %s, expected [start_idx, start_idx + n_tasks), start_idx" % (A.unparse(lo), A.unparse(hi), A.unparse(Y)),
-                  key="P6:" + kind)
+        X0, Y, _ = te
+        for X in _top_leaves(X0):
+            rg = _range_of(X)
+            if rg is None:
+                ctx.violate(R, c, "P6 range", "fall-back element 0 `%s` is not a range" % A.unparse(X), key="P6range")
+                continue
+            kind, lo, hi, arrx = rg
+            ok = equal(lo, parse("start_idx")) and equal(hi, parse("start_idx + n_tasks")) and equal(Y, parse("start_idx"))
+            ctx.check(R, c, "P6 fall-back = [start, start+n)", ok,
+                      "fall-back task covers [%s, %s) with id %s, expected [start_idx, start_idx + n_tasks), start_idx" % (A.unparse(lo), A.unparse(hi), A.unparse(Y)),
+                      key="P6:" + kind)
     # ---- result
     rets = flow.returns
     okret = bool(rets) and all(isinstance(v, ast.Name) or isinstance(v, ast.List) or v is not None for v, _ in rets)
